@@ -106,6 +106,7 @@ class Sym:
         self.trace = []
         self.recursion_guard = False
         self.active = []
+        self.concrete_loops = False
 
     # ------------------------------------------------------------------ entry
     def run(self, fid, this=None, args=None, state=None):
@@ -387,10 +388,57 @@ class Sym:
             return [(st, None)]
         if k == 'rangefor':
             return self.exec_search_loop(s, st)
+        if k == 'while' and self.concrete_loops:
+            return self.exec_while(s, st)
+        if k == 'for' and self.concrete_loops:
+            return self.exec_for(s, st)
         if k in ('while', 'for', 'do', 'switch', 'try', 'otherstmt', 'break', 'continue', 'case', 'default'):
             raise Unsupported(f'statement {k} at line {s.get("ln")}')
         # expression statement
         return [(s1, None) for s1, _v in self.ev(s, st)]
+
+    def exec_while(self, s, st, bound=12):
+        """Loop whose condition is decidable in the current (concrete fragment) state; iterations are bounded."""
+        out = []
+        work = [(st, 0)]
+        while work:
+            s0, n = work.pop()
+            if n > bound:
+                raise Unsupported('loop bound exceeded')
+            for s1, c in self.ev(s['c'], s0):
+                if s1.throw is not None:
+                    out.append((s1, None))
+                    continue
+                t = self.truth(c, s1)
+                if t is None:
+                    # undecidable: split (the caller enumerates descent decisions this way)
+                    s2 = s1.fork()
+                    s1.conds.append((c, True))
+                    s2.conds.append((c, False))
+                    out.append((s2, None))
+                    t = True
+                if t is False:
+                    out.append((s1, None))
+                    continue
+                for s3, sig in self.exec(s['b'], s1):
+                    if sig is not None and sig[0] == 'return' or s3.throw is not None:
+                        out.append((s3, sig))
+                    elif sig == 'break':
+                        out.append((s3, None))
+                    else:
+                        work.append((s3, n + 1))
+        return out
+
+    def exec_for(self, s, st):
+        pre = [st]
+        if s.get('init') is not None:
+            pre = [s1 for s1, _sig in self.exec(s['init'], st)]
+        body = {'k': 'compound', 'b': [s['b']] + ([s['inc']] if s.get('inc') is not None else [])}
+        loop = {'k': 'while', 'c': s.get('c') or {'k': 'lit', 'lt': 'bool', 'cv': '1'}, 'b': body, 'ln': s.get('ln')}
+        out = []
+        for s0 in pre:
+            out.extend(self.exec_while(loop, s0))
+        return out
 
     def exec_search_loop(self, s, st):
         """A range-for whose body only tests the element and possibly returns (a linear search): summarised
@@ -589,6 +637,18 @@ class Sym:
             out.append((s, self.load_field(s, b, e['name'])))
         return out
 
+    def rvalue(self, t, st):
+        """Value currently stored at a computed location (array element, field reached through a pointer)."""
+        if not isinstance(t, tuple) or not t:
+            return t
+        if t in st.symstore:
+            return st.symstore[t]
+        if t[0] == 'fld' and isinstance(t[1], tuple) and t[1] and t[1][0] == 'obj' and t[1][1] in st.heap:
+            o = st.heap[t[1][1]]
+            if t[2] in o.fields:
+                return o.fields[t[2]]
+        return t
+
     def note_deref(self, st, ptr, e):
         if isinstance(ptr, tuple) and ptr and ptr[0] in ('addr', 'obj'):
             return
@@ -600,6 +660,9 @@ class Sym:
         for s, v in self.ev(e['e'], st):
             if s.throw is not None or v is None:
                 out.append((s, v))
+                continue
+            if ck == 'LValueToRValue':
+                out.append((s, self.rvalue(v, s)))
                 continue
             if ck in ('DerivedToBase', 'UncheckedDerivedToBase', 'BaseToDerived', 'NoOp', 'LValueToRValue',
                       'ArrayToPointerDecay', 'IntegralCast', 'NullToPointer', 'BitCast', 'Dependent',
@@ -659,7 +722,12 @@ class Sym:
             return out
         out = []
         for s2, lv in self.ev(le, s):
-            s2.effects.append(('write', lv, value))
+            if isinstance(lv, tuple) and lv and lv[0] == 'fld' and isinstance(lv[1], tuple) and lv[1] and lv[1][0] == 'obj' and lv[1][1] in s2.heap:
+                s2.heap[lv[1][1]].fields[lv[2]] = value
+            else:
+                s2.effects.append(('write', lv, value))
+                if isinstance(lv, tuple) and lv and lv[0] in ('index', 'fld', 'deref'):
+                    s2.symstore[lv] = value
             out.append(s2)
         return out
 
